@@ -38,6 +38,7 @@ class Sock:
             if self.silence_after:
                 if self.timeout is None and getattr(self, "strict_blocking", False):
                     # a blocking socket and a silent peer: the real call would never come back
+                    self.blocked_forever = True        # (the library's bare `except:` clauses swallow even BaseException)
                     raise BlocksForever("read on a blocking transport while the peer is silent")
                 raise socket.timeout("timed out")
             self.eof_reads = getattr(self, "eof_reads", 0) + 1
